@@ -37,17 +37,24 @@ RangeHasLaw(rs, probes, incl) ==
      probes[k].has = (\E q \in 1..Len(rs) : rs[q][1] <= probes[k].n /\ (IF incl THEN probes[k].n <= rs[q][2] ELSE probes[k].n < rs[q][2]))
 NameHasLaw(rn, probes) == \A k \in 1..Len(probes) : probes[k].has = (\E q \in 1..Len(rn) : rn[q] = probes[k].s)
 
+\* Keyed lookups by JSON / text name: the first field whose *exact* name is the key; only when there is none, the first
+\* group-like field whose lower-cased name is the key (the alias is a compatibility extra and never wins over a name).
 EffectiveGroupLike(s) == s.text # s.name
-JSONKeyHit(s, key) == s.json = key \/ (EffectiveGroupLike(s) /\ Lower(s.json) = key)
-TextKeyHit(s, key) == s.text = key \/ (EffectiveGroupLike(s) /\ Lower(s.text) = key)
-FirstHit(fs, Hit(_, _), key) == LET S == {i \in 1..Len(fs) : Hit(fs[i], key)} IN IF S = {} THEN -1 ELSE MinOf(S) - 1
+JSONKeyHit(s, key) == s.json = key
+TextKeyHit(s, key) == s.text = key
+JSONAliasHit(s, key) == EffectiveGroupLike(s) /\ Lower(s.json) = key
+TextAliasHit(s, key) == EffectiveGroupLike(s) /\ Lower(s.text) = key
+FirstHit(fs, Hit(_, _), Alias(_, _), key) ==
+  LET E == {i \in 1..Len(fs) : Hit(fs[i], key)}
+      A == {i \in 1..Len(fs) : Alias(fs[i], key)}
+  IN IF E # {} THEN MinOf(E) - 1 ELSE IF A # {} THEN MinOf(A) - 1 ELSE -1
 
 FieldLaw(snap, m, s) ==
   /\ s.bynum = FirstIdx(Map(m.fields, LAMBDA y : y.num), s.num)
-  /\ s.byjson = FirstHit(m.fields, JSONKeyHit, s.json)
-  /\ s.bytext = FirstHit(m.fields, TextKeyHit, s.text)
-  /\ s.byjsonlo = FirstHit(m.fields, JSONKeyHit, Lower(s.json))
-  /\ s.bytextlo = FirstHit(m.fields, TextKeyHit, Lower(s.text))
+  /\ s.byjson = FirstHit(m.fields, JSONKeyHit, JSONAliasHit, s.json)
+  /\ s.bytext = FirstHit(m.fields, TextKeyHit, TextAliasHit, s.text)
+  /\ s.byjsonlo = FirstHit(m.fields, JSONKeyHit, JSONAliasHit, Lower(s.json))
+  /\ s.bytextlo = FirstHit(m.fields, TextKeyHit, TextAliasHit, Lower(s.text))
   /\ ~s.ext /\ s.cmsg = m.full /\ ~s.cmsgph /\ s.parent = m.full /\ s.depth = m.depth + 1
   /\ s.list = (s.card = 3 /\ ~s.map)
   /\ (s.packed => s.card = 3 /\ s.kind \notin Unpackable)
